@@ -70,6 +70,7 @@ func newWriteRec() *writeRec {
 }
 
 type Frame struct {
+	pendingFree []Val // free-variable values of the closure about to be called through its contract
 	thinCalls bool // inside a dynamic dispatch over many candidates: assume only unscoped ensures
 	vc        *VC
 	fn        *ssa.Function
@@ -816,7 +817,13 @@ func (f *Frame) load(l *Loc, st *State, pc string, pos token.Pos) string {
 			if sd, ok := vc.storeDefs[c]; ok && sd[1] == l.Base.Ref {
 				return sd[2] // read over the write just made to the same object (keeps statically known values)
 			}
-			return fmt.Sprintf("(select %s %s)", c, l.Base.Ref)
+			lt := fmt.Sprintf("(select %s %s)", c, l.Base.Ref)
+			if _, isFn := types.Unalias(sty.Field(l.Field).Type()).Underlying().(*types.Signature); isFn {
+				if set := vc.fnSetAt(c, l.Base.Ref, 0); len(set) > 0 {
+					vc.fnSetOfTerm[lt] = set // every path to here stored one of these functions
+				}
+			}
+			return lt
 		}
 		vc.structSort(name, sty)
 		return fmt.Sprintf("(%s %s)", fieldSel(name, sty.Field(l.Field).Name(), l.Field), f.load(l.Base, st, pc, pos))
@@ -1324,6 +1331,11 @@ func (f *Frame) binop(t *ssa.BinOp, pc string, st *State) {
 		op := map[token.Token]string{token.ADD: "+", token.SUB: "-", token.MUL: "*"}[t.Op]
 		r := fmt.Sprintf("(%s %s %s)", op, a, b)
 		if lo, hi, ok := intRange(t.Type()); ok {
+			if lo == "0" && hi == "18446744073709551615" && t.Op != token.MUL && f.root().con != nil && f.root().con.Wraps {
+				// 'wraps': exact machine semantics of unsigned 64-bit + and - (no obligation)
+				f.setVal(t, fmt.Sprintf("(mod %s 18446744073709551616)", r))
+				return
+			}
 			f.safe(pc, "nowrap", t.Pos(), fmt.Sprintf("(and (<= %s %s) (<= %s %s))", lo, r, r, hi), fmt.Sprintf("%s %s %s does not wrap around", t.X.Name(), t.Op, t.Y.Name()))
 		}
 		f.setVal(t, r)
